@@ -930,6 +930,12 @@ def eof_case(mech, op, k, T, t_tr, no_term=False, lock=False):
         c["no_term"] = False              # (the known region, as in the other generators)
     if not eof_login(c):
         c["oracle_only"] = EOF_ONLY
+    elif mname == "signal" and t_tr:
+        # the login loop spins through thousands of decorated reads, each arming and disarming its own (transport) alarm: when
+        # the outer alarm falls due between "timer restored" and "handler restored" the INNER handler words the message
+        # ("timed out reading from transport"); class, instant and clean-up are the same and are judged by the oracle
+        c["oracle_only"] = ("signal mechanism, nested transport limit armed, spinning reads: which of the two handlers words the "
+                            "ScrapliTimeout is a race inside scrapli's signal decorator (message only): judged by the oracle only")
     c["label"] = "peer EOF %s %s k=%d ops=%s tr=%s nt=%s" % (mname, op, k, T, t_tr, c["no_term"])
     return c
 
